@@ -18,6 +18,9 @@ CONFIGS = [
                                   "use_cache_subfolder_for_synctoken": "True"}}),
     ("mfs+mtime", {"storage": {"use_mtime_and_size_for_item_cache": "True"}}),
     ("mfs+cachefolder", {"storage": {"filesystem_cache_folder": "@tmp"}}),
+    ("mfs+cachesub+mtime", {"storage": {"use_cache_subfolder_for_item": "True", "use_mtime_and_size_for_item_cache": "True"}}),
+    ("nolock+cachefolder+cachesub+mtime", {"storage": {"type": "multifilesystem_nolock", "filesystem_cache_folder": "@tmp",
+                                                       "use_cache_subfolder_for_item": "True", "use_mtime_and_size_for_item_cache": "True"}}),
     ("mfs+latin1", {"encoding": {"stock": "iso-8859-1"}}),
     ("nolock+latin1+mtime", {"storage": {"type": "multifilesystem_nolock", "use_mtime_and_size_for_item_cache": "True"},
                             "encoding": {"stock": "iso-8859-1", "request": "utf-8"}}),
@@ -73,12 +76,27 @@ def oracle(ctx, conf, reqs, conf_name):
     request - stays as it was; PROPFIND Depth 1 shows what the storage holds."""
     fresh = davsim.Sim(ctx, conf)
     fresh.sid = None
+    label_of_etag = {}      # ETag -> which uploaded content it was first shown for
     try:
         for k, (user, r) in enumerate(reqs):
             before = {tuple(e["path"]): e for e in fresh.real_dump()}
             obs, _, _ = fresh.step(r, user, compare_store=False)
             after = {tuple(e["path"]): e for e in fresh.real_dump()}
             problem = postcondition(r, user, obs["status"], before, after)
+            if not problem and r["method"] == "PUT" and obs["status"] < 300 and r.get("objs"):
+                # what an acknowledged upload stored is identified by its ETag: the ETag now shown for an uploaded object is not one
+                # that was shown before for other content (pool objects with one UID differ in content, often not in length)
+                whole = tuple(r["path"]) in after
+                coll = tuple(r["path"]) if whole else tuple(r["path"][:-1])
+                for it in (after.get(coll) or {"items": []})["items"]:
+                    cids = tuple(sorted(o["cid"] for o in r["objs"] if o["uid"] == it["uid"]))
+                    if not cids or (not whole and it["href"] != r["path"][-1]):
+                        continue
+                    label = ("whole-collection upload" if whole else "single upload", it["uid"], cids)
+                    old = label_of_etag.setdefault(it["etag_raw"], label)
+                    if old != label and old[1:] != label[1:]:
+                        problem = ("the stored object with UID %s (content ids %s) is shown with the ETag %s that was shown before for other "
+                                   "content (%s, content ids %s)" % (it["uid"], list(cids), it["etag_raw"], old[0], list(old[2])))
             if problem:
                 ctx.violation("%s %s answered %d but %s" % (r["method"], "/".join(r["path"]), obs["status"], problem),
                               {"config": conf_name, "history": reqs[:k + 1]})
